@@ -263,6 +263,7 @@ def cases(ctx):
 # ------------------------------------------------------------------ schema types (ops 40 / 41)
 # field kinds: d8 d16 d32 ttl q (character-string) n (name) hex b64 txt ; attribute names in constructor order
 SCHEMA = {
+    1: ("a4", ["address"]), 28: ("a6", ["address"]), 105: ("d16 a4", ["preference", "locator32"]),
     2: ("n", ["target"]), 5: ("n", ["target"]), 12: ("n", ["target"]), 39: ("n", ["target"]), 23: ("n", ["target"]),
     15: ("d16 n", ["preference", "exchange"]), 18: ("d16 n", ["preference", "exchange"]),
     21: ("d16 n", ["preference", "exchange"]), 36: ("d16 n", ["preference", "exchange"]),
@@ -300,6 +301,10 @@ def gen_field(rng, kind):
                 return ls
     if kind in ("hex", "b64"):
         return gen_bytes(rng, 80) or b"\0"
+    if kind == "a4":
+        return bytes(rng.choice([0, 1, 9, 10, 99, 100, 199, 200, 255, rng.randrange(256)]) for _ in range(4))
+    if kind == "a6":
+        return gen_v6(rng)
     if kind == "txt":
         return [(gen_ubytes(rng) if rng.random() < 0.5 else gen_bytes(rng, 30))[:255] for _ in range(rng.randint(1, 4))]
     raise ValueError(kind)
@@ -461,6 +466,9 @@ def in_model(kind, case):
         # schema type needs the wire codec (C02): neither is part of this model
         if any(ord(c) > 127 for c in text) and "n" in SCHEMA[case[1]][0]:
             return False
+        if "a6" in SCHEMA[case[1]][0] and ("\\" in text or any(ord(c) > 127 for c in text)):
+            # escapes can put a line break into the address text (regular-expression corner case)
+            return False
         try:
             t = dns.tokenizer.Tokenizer(text).get()
             if t.is_identifier() and t.value == "\\#":
@@ -559,6 +567,10 @@ def impl(case):
             out = []
             for k, a in zip(SCHEMA[case[1]][0].split(), SCHEMA[case[1]][1]):
                 v = getattr(rd, a)
+                if k == "a4":
+                    v = dns.ipv4.inet_aton(v)
+                elif k == "a6":
+                    v = dns.ipv6.inet_aton(v)
                 out.append(nl.labels_of(v) if k == "n" else [bytes(x) for x in v] if k == "txt" else bytes(v) if isinstance(v, (bytes, bytearray)) else int(v))
             return out
     except Exception as e:  # noqa
